@@ -181,15 +181,26 @@ func expiryOf(v *verdict, m4, m6 []*sentRec, end time.Time, l *lookupRec) lifeti
 	}
 	var cands []time.Time
 	allPositive := true
+	// posHi: per family, the latest end among its positive candidates; failure: an RFC 9520 failure rcode is among
+	// the candidates (its 30 s replace, rather than bound, what an earlier message set: F15, order-dependent)
+	var posHi []time.Time
+	failure := false
 	perFam := func(m []*sentRec) (lo, hi time.Time, any bool) {
+		var ph time.Time
 		for _, s := range m {
 			if !s.R.Positive {
 				allPositive = false
+			}
+			if rc := s.R.RCode; rc == 1 || rc == 2 || rc == 4 || rc == 5 {
+				failure = true
 			}
 			if s.R.Cand < 0 {
 				continue
 			}
 			c := addTTL(s.At, s.R.Cand)
+			if s.R.Positive && c.After(ph) {
+				ph = c
+			}
 			cands = append(cands, c)
 			if !any || c.Before(lo) {
 				lo = c
@@ -198,6 +209,9 @@ func expiryOf(v *verdict, m4, m6 []*sentRec, end time.Time, l *lookupRec) lifeti
 				hi = c
 			}
 			any = true
+		}
+		if !ph.IsZero() {
+			posHi = append(posHi, ph)
 		}
 		return
 	}
@@ -213,6 +227,15 @@ func expiryOf(v *verdict, m4, m6 []*sentRec, end time.Time, l *lookupRec) lifeti
 		lt.lo, lt.hi = cands[0], cands[0]
 		for _, c := range cands {
 			lt.lo, lt.hi = minT(lt.lo, c), maxT(lt.hi, c)
+		}
+		// Answers of different nature in one result. Which of the candidates the resolver ends up with depends on
+		// the order it read them in (don't-care), but a record is never kept beyond its own TTL: when one family
+		// has address records and the other a negative answer, the negative caching time may shorten the lifetime
+		// and never extends it past the smallest TTL of the records ("reused only until the smallest TTL").
+		if !failure {
+			for _, ph := range posHi {
+				lt.hi = minT(lt.hi, ph)
+			}
 		}
 	}
 	for _, c := range v.truncCands {
